@@ -61,20 +61,20 @@ def run(ctx):
                     {"op": "tokenize", "mode": mode, "text": text}, nontrivial=ntok >= 3, key=("tok", mode, text))
             # type parser
             t0 = time.time()
-            obs, ex = PG.obs_parse_type(lang, text, ops)
+            obs, ex = bounded(lambda: PG.obs_parse_type(lang, text, ops))
             check(ctx, "parse_type", text, obs, ex, time.time() - t0, spec)
             ctx.case(f"(ptype {G.str_sexp(text)})", obs, {"lang": spec.to_json(), "op": "parse_type", "text": text},
                 nontrivial=ntok >= 3, key=("ptype", li, text))
             # expression parser (structure)
             t0 = time.time()
-            obs, ex = PG.obs_parse_expr(lang, text, ninputs, ops)
+            obs, ex = bounded(lambda: PG.obs_parse_expr(lang, text, ninputs, ops))
             check(ctx, "parse_expr", text, obs, ex, time.time() - t0, spec, ninputs)
             if obs != "E:TypeAnnotationError":
                 ctx.case(f"(pexpr {ninputs} {G.str_sexp(text)})", obs, {"lang": spec.to_json(), "op": "parse_expr", "text": text, "inputs": ninputs},
                     nontrivial=ntok >= 3, key=("pexpr", li, ninputs, text))
             # typed parse (implementation only)
             t0 = time.time()
-            obs, ex = PG.obs_parse_expr(lang, text, ninputs, ops, unify=True)
+            obs, ex = bounded(lambda: PG.obs_parse_expr(lang, text, ninputs, ops, unify=True))
             check(ctx, "parse", text, obs, ex, time.time() - t0, spec, ninputs)
     # (b) the engine: constraint-heavy schemas
     C03.run(ctx, p_constraints=0.9, nlang=3 if ctx.tier == "quick" else 25, ncase=120 if ctx.tier == "quick" else 800)
@@ -82,9 +82,32 @@ def run(ctx):
     deep_nesting(ctx)
 
 
+class _Timeout(Exception):
+    pass
+
+
+def bounded(fn, seconds=5):
+    """run fn() under a wall-clock bound: a parser that does not come back is a failure of the property, not of the check"""
+    import signal
+
+    def handler(signum, frame):
+        raise _Timeout()
+    old = signal.signal(signal.SIGALRM, handler)
+    signal.setitimer(signal.ITIMER_REAL, seconds)
+    try:
+        return fn()
+    except _Timeout as ex:
+        return "E:Timeout", ex
+    finally:
+        signal.setitimer(signal.ITIMER_REAL, 0)
+        signal.signal(signal.SIGALRM, old)
+
+
 def check(ctx, what, text, obs, ex, dt, spec, ninputs=0):
     ctx.count(f"{what}_" + (obs.split(" ")[0] if obs.startswith("ok") else obs))
-    if dt > 5:
+    if dt > 5 or isinstance(ex, _Timeout):
+        if isinstance(ex, _Timeout):
+            ex = None
         ctx.fail(f"{what}({text!r}) took {dt:.1f}s", {"check": "timeout", "what": what}, {"lang": spec.to_json(), "what": what, "text": text, "inputs": ninputs})
     if ex is not None and not declared(ex):
         ctx.fail(f"{what}({text!r}) raised {type(ex).__name__}: {ex}", {"check": "undeclared-error", "what": what, "exception": type(ex).__name__},
